@@ -575,7 +575,12 @@ class Gen:
             charset = "bk"
         else:
             raise ValueError(stream)
-        return {"files": files, "fs": fs, "charset": charset, "stream": stream, "tags": list(self.tags), "hit": sorted(self.hit)}
+        # programs without any definition cycle by construction: a 'recursive-definition' report on them is spurious
+        acyclic = stream == "valid" or (stream == "deep" and "acyclic" in self.tags)
+        return {"files": files, "fs": fs, "charset": charset, "stream": stream, "tags": list(self.tags), "hit": sorted(self.hit), "acyclic": acyclic}
+
+    ACYCLIC_DEEP = ("deep:evens", "deep:long-expr", "deep:nest-brackets", "deep:nest-repeat",
+                    "deep:label-chain", "deep:many-symbols", "deep:many-files")
 
     def wide_prog(self, max_stmts=60):
         r = self.r
@@ -831,18 +836,23 @@ class Gen:
         r = self.r
         kind = r.choice(["add-chain", "add-chain", "nonlinear-chain", "nonlinear-chain", "evens", "evens", "long-expr", "nest-brackets", "nest-repeat", "label-chain", "size-chain", "mixed-aligns", "many-symbols", "many-files"])
         self.tags.append("deep:" + kind)
+        if "deep:" + kind in self.ACYCLIC_DEEP:
+            self.tags.append("acyclic")
         order = r.choice(["forward", "backward", "shuffled"])
         lines = []
         if kind == "add-chain":
             n = r.choice([10, 50, 150, 300])
             defs = ["x0 = 5"] + [f"x{i} = x{i - 1} + {r.choice(['1', '2', '.', '. - 1'])}" for i in range(1, n + 1)]
             use = f".word x{n}" if self.p(0.7) else f".blkb x{n} & 7"
+            if use.startswith(".word"):
+                self.tags.append("acyclic")     # a size that depends on '.'-valued definitions after it would be a real cycle
             lines = self.ordered(defs, use, order)
         elif kind == "nonlinear-chain":
             n = r.choice([5, 10, 20, 30])
             ops = ["*3/2", "/2*3", "%7+1", "&255|1", "_1", ">>1", "<<1", "^5", "!1", "*x0"]
             defs = ["x0 = 5"] + [f"x{i} = x{i - 1}{r.choice(ops)}" for i in range(1, n + 1)]
             use = f".word x{n}" if self.p(0.7) else f".blkb x{n} & 7"
+            self.tags.append("acyclic")         # constants only: no address involved
             lines = self.ordered(defs, use, order)
         elif kind == "evens":
             n = r.choice([5, 10, 20, 30])
